@@ -156,6 +156,10 @@ def run_replay_check(pid: str, tier: str, seed: int) -> int:
             print(out[-2000:])
             raise Machinery(f"scripted cover generation failed: {err}")
         tr = tlcrun.parse_traces(out)
+        nscr, dead = tlcrun.dead_scripts(out, tr)
+        if dead:
+            raise Machinery(f"{len(dead)} of {nscr} scripts of {g['scripts']} were never completed by the specification, first: "
+                            + json.dumps(dead[0])[:600])
         cover_total += len(tr)
         picked = stratified(tr, g["sample"], seed + k)
         behaviours.extend(picked)
@@ -380,6 +384,10 @@ def run_trace_check(pid: str, tier: str, seed: int) -> int:
             print(out[-2000:])
             raise Machinery(f"scripted cover generation failed: {err}")
         tr = tlcrun.parse_traces(out)
+        nscr, dead = tlcrun.dead_scripts(out, tr)
+        if dead:
+            raise Machinery(f"{len(dead)} of {nscr} scripts of {g['scripts']} were never completed by the specification, first: "
+                            + json.dumps(dead[0])[:600])
         picked = stratified(tr, g["sample"], seed + k)
         behaviours.extend(picked)
         gen_desc.append(f"cover {g['u']} scripts {g['scripts']} focus {g['focus']}: {len(tr)} enumerated, {len(picked)} replayed")
